@@ -269,7 +269,7 @@ pub fn db_strategy(with_errors: bool) -> BoxedStrategy<DbSpec> {
         .boxed()
 }
 
-fn names_of(spec: &DbSpec) -> (Vec<String>, Vec<String>, Vec<String>) {
+pub fn names_of(spec: &DbSpec) -> (Vec<String>, Vec<String>, Vec<String>) {
     (
         spec.db.as_sets.keys().cloned().collect(),
         spec.db.route_sets.keys().cloned().collect(),
